@@ -3,6 +3,7 @@ package main
 import (
 	"fmt"
 	"math/big"
+	"os"
 
 	sdk "github.com/cosmos/cosmos-sdk/types"
 
@@ -92,7 +93,8 @@ func ratPowInt(x *big.Int, n int) *big.Int {
 	return new(big.Int).Exp(x, big.NewInt(int64(n)), nil)
 }
 
-// stablePerShareFall: relative fall of K^(1/(n+2))/S, as float (observation only), and exact sign.
+// stablePerShareCmp compares K^(1/d)/S after with before exactly (cmp < 0: it fell) and gives the relative
+// fall as a float for reporting.
 func stablePerShareCmp(before, after balSnap, sf []uint64) (cmp int, fall float64) {
 	d := len(before.B) + 2
 	kb, ka := fullK(scaledRes(before.B, sf)), fullK(scaledRes(after.B, sf))
@@ -101,13 +103,55 @@ func stablePerShareCmp(before, after balSnap, sf []uint64) (cmp int, fall float6
 	r := rMul(kb, rInt(ratPowInt(after.S, d)))
 	cmp = l.Cmp(r)
 	if cmp < 0 {
-		q := fRat(rQuo(l, r)) // < 1 ; fall of the d-th root ~ (1-q)/d
-		fall = f64(nf().Quo(nf().Sub(fI64(1), q), fI64(int64(d))))
+		q := fRat(rQuo(l, r)) // (per-share after / before)^d < 1
+		root := expF(nf().Quo(lnF(q), fI64(int64(d))))
+		fall = f64(nf().Sub(fI64(1), root))
 	}
 	return
 }
 
-func isPow10Scaling(sf []uint64) bool { return true }
+// stablePerShareWithin reports whether K^(1/d)/S after >= (1-allow) * before, exactly:
+// ka*Sb^d >= (1-allow)^d * kb*Sa^d.
+func stablePerShareWithin(before, after balSnap, sf []uint64, allow *big.Rat) bool {
+	d := len(before.B) + 2
+	kb, ka := fullK(scaledRes(before.B, sf)), fullK(scaledRes(after.B, sf))
+	l := rMul(ka, rInt(ratPowInt(before.S, d)))
+	r := rMul(kb, rInt(ratPowInt(after.S, d)))
+	om := rSub(rOne, allow)
+	if om.Sign() <= 0 {
+		return true
+	}
+	f := big.NewRat(1, 1)
+	for i := 0; i < d; i++ {
+		f.Mul(f, om)
+	}
+	return l.Cmp(rMul(f, r)) >= 0
+}
+
+// stableSingleJoinAllowance: the share count of a stableswap single-asset join of denom a is chosen by
+// BinarySearchSingleAssetJoin so that exiting the new shares and swapping everything back yields at most
+// the amount joined and at least that amount minus 1 (documented additive tolerance). That estimate
+// truncates the exited amount of every asset (< 1 unit each) and the output of every swap leg (< 1 unit of
+// a each). Explicitly counted user-favourable rounding per join: 1 unit of every other asset and
+// (1 tolerance + 1 exit + (n-1) swap legs) units of a. Returned as a fraction of the pool value
+// (grad K . units / (d K)) at the given state.
+func stableSingleJoinAllowance(B []*big.Int, sf []uint64, a int) *big.Rat {
+	x := scaledRes(B, sf)
+	g := gradFullK(x)
+	n := len(B)
+	sum := new(big.Rat)
+	for j := range B {
+		units := int64(1)
+		if j == a {
+			units = int64(2 + (n - 1))
+		}
+		u := new(big.Rat).SetFrac(big.NewInt(units), new(big.Int).SetUint64(sf[j]))
+		sum.Add(sum, rMul(g[j], u))
+	}
+	return rQuo(sum, rMul(rI64(int64(n+2)), fullK(x)))
+}
+
+var debugObs = os.Getenv("C04_DEBUG_OBS") != ""
 
 // evalStable evaluates one stableswap lattice point on a fresh pool.
 func evalStable(sk sink, c Case) {
@@ -313,10 +357,19 @@ func evalStable(sk sink, c Case) {
 		if new(big.Int).Mul(shares.BigInt(), A).Cmp(new(big.Int).Mul(in, S)) > 0 {
 			sk.violation("stable_single_join_exceeds_cap", c.sig(), fmt.Sprintf("%s: shares %s * A %s > in %s * S %s", c.sig(), shares, A, in, S), c)
 		}
-		// observation: per-share invariant movement
+		// observation (not asserted: the statement makes no per-operation claim for stableswap joins): movement
+		// of K^(1/d)/S, also relative to the explicitly counted rounding units of the share search
 		if cmp, fall := stablePerShareCmp(before, after, sf); cmp < 0 {
+			allow := stableSingleJoinAllowance(before.B, sf, 0)
+			if a2 := stableSingleJoinAllowance(after.B, sf, 0); a2.Cmp(allow) > 0 {
+				allow = a2
+			}
 			sk.maxExtra("max_stable_single_join_pershare_fall", fall)
+			sk.maxExtra("max_stable_single_join_fall_over_unit_allowance", fall/f64(fRat(allow)))
 			sk.vac("obs_stable_single_join_pershare_fell")
+			if debugObs {
+				fmt.Fprintf(os.Stderr, "OBS %s fall=%.3g allow=%.3g in=%s shares=%s before=%v/%s after=%v/%s\n", c.sig(), fall, f64(fRat(allow)), in, shares, strs(before.B), before.S, strs(after.B), after.S)
+			}
 		}
 		// round trip: exit the minted shares, swap everything back to a at zero spread factor: must not
 		// return more than was paid in
